@@ -142,7 +142,7 @@ def run(ctx):
                     'STRAßE1', 'Straße1', 'GROßE!', 'Fußball7', 'FUßBALL',
                     # a capital sigma at the end of a word that is followed by a cased symbol: the whole password's lower-casing keeps the
                     # medial form there, the word's own lower-casing gives the final form
-                    'GreenΣΊΣΥΦΟΣⒷ', 'ΣΊΣΥΦΟΣ1', 'σίσυφος', 'σίσυφος']
+                    'GreenΣΊΣΥΦΟΣⒷ', 'ΣΊΣΥΦΟΣ1', 'σίσυφος', 'σίσυφος', 'pass2019', 'love1999']
             # the scorer's own multi-word detector at work (it needs six probability tiers in a length class): a three-word
             # compound and, after it, strings made of its two-word tail
             pws += gen_passwords.scorer_family()
@@ -180,6 +180,9 @@ def run(ctx):
         # letters turn up again, earlier (www.community.com) or later (site.com-my.company), as part of a longer word
         for s in WEBSITE_STRINGS:
             cands.setdefault(s, 'website')
+        # strings that differ from a training password only in how a digit is written
+        for s in ['pass20\uff11\uff19', 'love19\u2079\u2079', 'pass\uff12\uff10\uff11\uff19', '12love\uff11\uff12']:
+            cands.setdefault(s, 'unrelated')
         cands = {c: k for c, k in cands.items() if c and '\t' not in c and '\n' not in c}
         pre = ['dt.new'] + cd.uenv_ops(list(cands)) + cd.mw_ops(sc.multiword_detector) + ['dt.cfg 1 4 21'] + score_ops(sc)
         ops += pre
